@@ -244,7 +244,7 @@ func caseC08(c *Ctx) {
 	p.Scale(5, "NewBatch", "BatchAdd", "BatchRemove", "BatchExchange", "BatchSetRel", "RelExchangeBatch", "BatchRemoveEntities")
 	p.Scale(2, "BuilderNew", "RelSet", "RemoveEntity")
 	p.Zero("RegisterType", "QueryCheck", "Reset")
-	s := NewSess(cfg, Opts{Track: true, Inv: c.Case%3 == 0})
+	s := NewSess(cfg, Opts{Track: true, Inv: c.Case%3 == 0, CacheCB: c.Case%4 == 1})
 	g := NewGen(c.R, s, p)
 	for i := 0; i < p.Steps && !s.Failed(); i++ {
 		op := g.Next()
